@@ -16,6 +16,12 @@ check("C06", "exploration",
   "Small-scope: indexes longer than the bound and alphabets beyond 4 values per type are not explored; page content of a (min,max) page is the alphabet values in [min,max].",
   "DESIGN.md §2 C06")
 
+check("C01", "exploration",
+  "bounded exhaustive enumeration (choice-tree DFS, deviation-bounded option lattice) of row type x row sequence x Write/Flush history x writer options on the real writer and the three real read paths, compared with the written Go values under the documented mapping",
+  "Every execution writes real rows through GenericWriter[T] and reads them back through Read[T], GenericReader[T].Read (3 batch sizes) and RowGroup.Rows().ReadRows+Schema.Reconstruct; all must equal the input (floats by bits, nil==empty). The space is the product of 25 struct shapes, boundary-value row alphabets, run-length patterns around the 8/64/128 thresholds, all call histories for n<=3 and a 19-axis option lattice explored completely within 1 (quick) or 2 (thorough) deviations from the defaults: a finite space enumerated completely, which is what a for-all over inputs x configurations x histories needs and what sampling tests cannot give.",
+  "Small scope: 25 hand-listed struct shapes two levels deep, one-factor-at-a-time row alphabets, option combinations beyond the deviation bound are not covered; -0.0 in an optional non-pointer float may come back as +0.0 (two-valued mapping).",
+  "DESIGN.md §2 C01")
+
 NOT_YET = "check not built yet in this round (design in DESIGN.md §2); not claimed until its check exists"
 
 m = {
